@@ -395,6 +395,17 @@ fn get_many_op(&mut self, a: &[u64; crate::case::MAX_ARGS]) -> Result<(), Bad> {
             world::clear_panic_messages();
         }
         Ok(res) => {
+            // two references to one address are memory unsafety whatever Hash/Eq answer (C05 when the
+            // answers are inconsistent, C15 otherwise)
+            for i in 0..res.len() {
+                for j in 0..i {
+                    if let (Some(x), Some(y)) = (&res[i], &res[j]) {
+                        if x.0 == y.0 {
+                            bad!(if self.lawful { "C15" } else { "C05" }, "get_many_mut-aliasing", "requests {j} and {i} of get_many_mut({:?}) returned the same address {:#x}", ids, x.0);
+                        }
+                    }
+                }
+            }
             if must_panic {
                 bad!("C15", "get_many_mut-aliasing", "get_many_mut({:?}) returned although two requests name the same present entry", ids);
             }
